@@ -1761,7 +1761,12 @@ func (b *RaftBackend) applyLog(ctx context.Context, command *LogData) error {
 	} else {
 		lowestActiveIndex = b.fsm.fastTxnTracker.lowestActiveIndex()
 	}
-	lowestActiveIndex = min(b.raft.AppliedIndex(), lowestActiveIndex) // we need to cap the lowest active index, otherwise we might miss transaction started concurrently
+	// We need to cap the lowest active index, otherwise we might miss
+	// transaction started concurrently. Transactions start at the index the
+	// FSM has applied, which may be behind raft.AppliedIndex() due to the
+	// async nature of the raft library, so the cap has to be the FSM's index.
+	fsmState, _ := b.fsm.LatestState()
+	lowestActiveIndex = min(fsmState.Index, lowestActiveIndex)
 	command.LowestActiveIndex = new(lowestActiveIndex)
 
 	isTx := len(command.Operations) > 0 && command.Operations[0].OpType == beginTxOp
